@@ -26,6 +26,9 @@ type Solver struct {
 	lines   [][]string     // per level: script lines
 	log     io.Writer
 	dead    bool
+	kind    string // "z3" (default) or "cvc5" (integer encoding of bit-vectors, for the x/÷-by-constant kernels)
+	mirror  *Solver // for kind cvc5: a z3 session receiving the same script, asked when cvc5 gives up quickly
+	tlimit  int
 
 	st *SolverStats
 }
@@ -59,13 +62,34 @@ var (
 )
 
 func NewSolver(log io.Writer, st *SolverStats) *Solver {
-	s := &Solver{log: log, st: st}
+	return NewSolverKind(log, st, "z3")
+}
+
+func NewSolverKind(log io.Writer, st *SolverStats, kind string) *Solver {
+	s := &Solver{log: log, st: st, kind: kind, tlimit: PrimaryTimeout}
+	if kind == "cvc5" {
+		// the integer encoding answers the unsat instances of the x/÷-by-constant kernels in milliseconds and
+		// times out on the sat ones, where bit-blasting is fast: short limit here, z3 mirror second
+		s.tlimit = 1500
+		s.mirror = &Solver{st: st, kind: "z3", tlimit: PrimaryTimeout}
+		s.mirror.start()
+	}
 	s.start()
 	return s
 }
 
+func (s *Solver) name() string {
+	if s.kind == "cvc5" {
+		return "cvc5-bvint-live"
+	}
+	return PrimaryBin
+}
+
 func (s *Solver) start() {
 	cmd := exec.Command(PrimaryBin, "-in")
+	if s.kind == "cvc5" {
+		cmd = exec.Command("cvc5", "--incremental", "--produce-models", "--solve-bv-as-int=iand", fmt.Sprintf("--tlimit-per=%d", s.tlimit), "--lang=smt2")
+	}
 	in, _ := cmd.StdinPipe()
 	out, _ := cmd.StdoutPipe()
 	cmd.Stderr = nil
@@ -77,12 +101,23 @@ func (s *Solver) start() {
 	s.defined = []map[int]bool{{}}
 	s.lines = [][]string{{}}
 	s.dead = false
-	s.raw("(set-option :print-success false)")
-	s.raw("(set-option :produce-models true)")
-	s.raw(fmt.Sprintf("(set-option :timeout %d)", PrimaryTimeout))
+	if s.kind == "cvc5" {
+		s.raw("(set-logic ALL)")
+	} else {
+		s.raw("(set-option :print-success false)")
+		s.raw("(set-option :produce-models true)")
+		s.raw(fmt.Sprintf("(set-option :timeout %d)", s.tlimit))
+	}
 }
 
 func (s *Solver) raw(str string) {
+	s.rawOnly(str)
+	if s.mirror != nil && !strings.HasPrefix(str, "(set-") {
+		s.mirror.rawOnly(str)
+	}
+}
+
+func (s *Solver) rawOnly(str string) {
 	if s.log != nil {
 		fmt.Fprintln(s.log, str)
 	}
@@ -97,6 +132,9 @@ func (s *Solver) send(str string) {
 }
 
 func (s *Solver) Close() {
+	if s.mirror != nil {
+		s.mirror.Close()
+	}
 	s.in.Close()
 	done := make(chan struct{})
 	go func() { s.cmd.Wait(); close(done) }()
@@ -113,8 +151,11 @@ func (s *Solver) Reset() {
 	for s.level > 0 {
 		s.Pop()
 	}
-	if s.dead {
+	if s.dead || (s.mirror != nil && s.mirror.dead) {
 		s.Close()
+		if s.mirror != nil {
+			s.mirror.start()
+		}
 		s.start()
 	}
 }
@@ -221,9 +262,26 @@ func (s *Solver) check(ts []*Term) (string, []uint64) {
 		names = append(names, s.ref(t))
 	}
 	t0 := time.Now()
-	s.raw("(check-sat)")
+	s.rawOnly("(check-sat)")
 	r := s.readLine()
-	s.st.add(PrimaryBin, time.Since(t0))
+	s.st.add(s.name(), time.Since(t0))
+	if r != "sat" && r != "unsat" && s.mirror != nil && !s.dead && !s.mirror.dead {
+		t1 := time.Now()
+		s.mirror.rawOnly("(check-sat)")
+		r2 := s.mirror.readLine()
+		s.st.add("z3-mirror", time.Since(t1))
+		if r2 == "unsat" {
+			return r2, nil
+		}
+		if r2 == "sat" {
+			if len(ts) == 0 {
+				return r2, nil
+			}
+			if vals, ok := s.mirror.getValues(names, ts); ok {
+				return r2, vals
+			}
+		}
+	}
 	if strings.HasPrefix(r, "(error") {
 		s.st.mu.Lock()
 		s.st.Errors++
@@ -282,7 +340,7 @@ func (s *Solver) getValues(names []string, ts []*Term) ([]uint64, bool) {
 			sb.WriteByte(' ')
 		}
 		sb.WriteString("))")
-		s.raw(sb.String())
+		s.rawOnly(sb.String())
 		resp := s.readSexp()
 		got, ok := parseValues(resp, len(need))
 		if !ok {
@@ -392,6 +450,7 @@ func (s *Solver) escalate(names []string, ts []*Term) (string, []uint64) {
 		{"z3-4.8", []string{"z3", f2.Name()}},
 		{"z3-new-long", []string{"z3-new", f2.Name()}},
 	}
+	bes = append(bes, be{"cvc5-bvint-iand", []string{"cvc5", "--solve-bv-as-int=iand", "--produce-models", f.Name()}})
 	ch := make(chan escResult, len(bes))
 	for _, b := range bes {
 		go func(b be) {
